@@ -37,9 +37,11 @@ theorem good_unary_plain (kind : MethodKind) (body : Body) (ctype : CType) (toke
       · rename_i m; cases m <;> rfl
       · rename_i d; cases d <;> rfl
       · cases beh <;> rfl
+      · rename_i e; cases e <;> rfl
     · rfl
     · rfl
     · rfl
+  · rfl
   · rfl
   · rfl
 
@@ -54,13 +56,16 @@ theorem good_init_plain (kind : MethodKind) (body : Body) (ctype : CType) (token
       · rename_i m; cases m <;> rfl
       · rename_i d; cases d <;> rfl
       · cases beh <;> rfl
+      · rename_i e; cases e <;> rfl
     · cases body
       · cases beh <;> rfl
       · rename_i e; cases e <;> rfl
       · rename_i m; cases m <;> rfl
       · rename_i d; cases d <;> rfl
       · cases beh <;> rfl
+      · rename_i e; cases e <;> rfl
     · rfl
+  · rfl
   · rfl
   · rfl
 
@@ -75,13 +80,16 @@ theorem good_exchange_plain (kind : MethodKind) (body : Body) (ctype : CType) (t
       · cases token <;> first | rfl | (cases beh <;> rfl)
       · cases token <;> first | rfl | (cases beh <;> rfl)
       · cases token <;> rfl
+      · cases token <;> first | rfl | (cases beh <;> rfl)
     · cases body
       · cases token <;> first | rfl | (cases beh <;> rfl)
       · rename_i e; cases e <;> rfl
       · cases token <;> first | rfl | (cases beh <;> rfl)
       · rename_i d; cases d <;> cases token <;> rfl
       · cases token <;> rfl
+      · cases token <;> first | rfl | (cases beh <;> rfl)
     · rfl
+  · rfl
   · rfl
   · rfl
 
@@ -95,9 +103,11 @@ theorem good_unary_coded (kind : MethodKind) (body : Body) (ctype : CType) (toke
       · rename_i m; cases m <;> rfl
       · rename_i d; cases d <;> rfl
       · cases beh <;> rfl
+      · rename_i e; cases e <;> rfl
     · rfl
     · rfl
     · rfl
+  · rfl
   · rfl
   · rfl
 
@@ -112,13 +122,16 @@ theorem good_init_coded (kind : MethodKind) (body : Body) (ctype : CType) (token
       · rename_i m; cases m <;> rfl
       · rename_i d; cases d <;> rfl
       · cases beh <;> rfl
+      · rename_i e; cases e <;> rfl
     · cases body
       · cases beh <;> rfl
       · rename_i e; cases e <;> rfl
       · rename_i m; cases m <;> rfl
       · rename_i d; cases d <;> rfl
       · cases beh <;> rfl
+      · rename_i e; cases e <;> rfl
     · rfl
+  · rfl
   · rfl
   · rfl
 
@@ -133,13 +146,16 @@ theorem good_exchange_coded (kind : MethodKind) (body : Body) (ctype : CType) (t
       · cases token <;> first | rfl | (cases beh <;> rfl)
       · cases token <;> first | rfl | (cases beh <;> rfl)
       · cases token <;> rfl
+      · cases token <;> first | rfl | (cases beh <;> rfl)
     · cases body
       · cases token <;> first | rfl | (cases beh <;> rfl)
       · rename_i e; cases e <;> rfl
       · cases token <;> first | rfl | (cases beh <;> rfl)
       · rename_i d; cases d <;> cases token <;> rfl
       · cases token <;> rfl
+      · cases token <;> first | rfl | (cases beh <;> rfl)
     · rfl
+  · rfl
   · rfl
   · rfl
 
